@@ -206,4 +206,48 @@ Proof.
     cbv zeta. unfold fetch_bearer_plan, final_send.
     destruct (if str_eqb key attempted then None else otok2 key) as [tok2|]; bcrush.
 Qed.
+
+(* "valid credentials => the registry's non-401 answer" for a call in any concurrent
+   execution (same statement as the sequential one, on the oracle-read model) *)
+Lemma valid_credentials_succeed_rd clean cf rq osch otok1 otok2 script :
+  let '(evs, op, r) := do_request_rd clean parse cf rq osch otok1 otok2 script in
+  r <> RBad ->
+  rewind_ok (rq_body rq) = true ->
+  r <> RErr ENoCred -> r <> RErr EMissing -> r <> RErr ECred ->
+  (forall s, ~ In (s, AFail) evs) ->
+  (forall s, ~ In (s, AErr) evs) ->
+  (forall h a hdr, ~ In (SReg h a true, A401 hdr) evs) ->
+  (forall s hdr ps, In (s, A401 hdr) evs -> parse hdr <> (SchUnknown, ps)) ->
+  r = RResp false /\ exists h a fresh, last evs no_event = (SReg h a fresh, AOk).
+Proof.
+  pose proof (do_request_rd_budget clean cf rq osch otok1 otok2 script) as B.
+  destruct (do_request_rd clean parse cf rq osch otok1 otok2 script) as [[evs op] r].
+  destruct B as (B1 & B2 & O & _).
+  intros Hbad Hbody Hnc Hmiss Hce Hfail Herr Hfresh Hknown.
+  destruct r as [[|]|[| | | | |]|]; simpl in O; try congruence.
+  - exfalso. destruct O as (h & a & fresh & hdr & L & [->|(ps & P)]).
+    + apply (Hfresh h a hdr). apply (last_in _ _ _ L). discriminate.
+    + apply (Hknown (SReg h a fresh) hdr ps); auto. apply (last_in _ _ _ L). discriminate.
+  - auto.
+  - exfalso. destruct O as (s & L & Hs). apply (Hfail s).
+    apply (last_in _ _ _ L). intro E. rewrite E in Hs. discriminate.
+  - exfalso. destruct O as (s & L). apply (Herr s). apply (last_in _ _ _ L). discriminate.
+Qed.
+
+(* concurrentCache.store is not one atomic step in Go: between the replacement of the
+   entry (LoadOrStore / Store on cc.cache) and tokens.Store a reader may see the entry
+   with the new scheme and without the token.  That intermediate cache is host-tainted
+   too, so a read at that moment is one of the oracle answers the theorems allow. *)
+Lemma store_intermediate_ok c h s :
+  cache_ok c ->
+  cache_ok (match cc_entry c h with
+            | Some (s', t) => if scheme_eqb s s' then c else cc_put c h (s, [])
+            | None => cc_put c h (s, [])
+            end).
+Proof.
+  intros H. destruct (cc_entry c h) as [[s' t]|] eqn:E; [destruct (scheme_eqb s s'); auto|];
+    intros h' s0 k v G; unfold cc_get_token in G; rewrite cc_entry_put in G;
+    (destruct (h' =? h) eqn:Eh;
+     [destruct (scheme_eqb s0 s); discriminate | apply (H h' s0 k v); unfold cc_get_token; exact G]).
+Qed.
 End WithParse.
